@@ -3,7 +3,7 @@ use std::convert::Infallible;
 use full_moon::{ast, visitors::Visitor};
 use serde::Deserialize;
 
-use crate::ast_util::{name_paths::*, range, scopes::ScopeManager};
+use crate::ast_util::{name_paths::*, purge_trivia, range, scopes::ScopeManager};
 
 use super::{super::standard_library::*, *};
 
@@ -233,20 +233,20 @@ impl Visitor for DeprecatedVisitor<'_> {
             ast::FunctionArgs::Parentheses { arguments, .. } => arguments
                 .iter()
                 .map(|argument| Argument {
-                    display: argument.to_string().trim_end().to_string(),
+                    display: purge_trivia(argument).to_string(),
                     range: range(argument),
                 })
                 .collect(),
 
             ast::FunctionArgs::String(token) => vec![
                 (Argument {
-                    display: token.to_string(),
+                    display: token.token().to_string(),
                     range: range(token),
                 }),
             ],
             ast::FunctionArgs::TableConstructor(table_constructor) => {
                 vec![Argument {
-                    display: table_constructor.to_string(),
+                    display: purge_trivia(table_constructor).to_string(),
                     range: range(table_constructor),
                 }]
             }
